@@ -184,6 +184,17 @@ def build_vec(o):
                 out.append(2.0 * a[i] * u + two_pi * amp * math.sin(two_pi * u))
             return out
 
+    elif kind == "linear":  # monotone: the optimum over a box lies on its boundary, and it keeps improving beyond
+
+        def f(x):
+            s = b
+            for i in range(d):
+                s += a[i] * (_cl(x[i]) - c[i])
+            return s
+
+        def grad(x):
+            return [a[i] for i in range(d)]
+
     elif kind == "vtable":
         vals, sc = o["vals"], o["s"]
         n = len(vals)
@@ -320,6 +331,9 @@ def group1(name, ctx, desc, f, call, valid_point, starts=(), bounds=None):
     if res.evaluations != len(log):
         raise Violation(f"{name}:evaluations-count", {"evaluations": res.evaluations, "proxy_calls": len(log)})
     if bounds is not None:
+        # measured only: the statement speaks about the returned point ("bounded solvers return points inside
+        # their bounds"); an evaluated point outside the box is a violation once it is returned (below)
+        ctx.label(any(not _inside(p, bounds) for p, _ in log) and "evaluated-outside-bounds")
         for i, (lo, hi) in enumerate(bounds):
             if not lo <= res.solution[i] <= hi:
                 raise Violation(f"{name}:outside-bounds", {"solution": _pt(res.solution), "dim": i, "bounds": [lo, hi]})
@@ -588,10 +602,10 @@ POS = st.sampled_from([0.25, 0.5, 1.0, 1.5, 2.0, 0.0])
 
 
 @st.composite
-def vec_obj(draw, d, kinds=("sphere", "abs", "step", "rast", "vtable")):
+def vec_obj(draw, d, kinds=("sphere", "abs", "step", "rast", "vtable", "linear")):
     kind = draw(st.sampled_from(list(kinds)))
     o = {"kind": kind, "d": d, "c": draw(st.lists(dy(-4, 4), min_size=d, max_size=d)), "b": draw(dy(-4, 4))}
-    if kind in ("sphere", "abs"):
+    if kind in ("sphere", "abs", "linear"):
         o["a"] = draw(st.lists(COEF, min_size=d, max_size=d))
     elif kind == "step":
         o["a"] = draw(st.lists(st.sampled_from([-2.0, -1.0, 1.0, 2.0, 3.0, 1.0, 0.0]), min_size=d, max_size=d))
@@ -760,6 +774,138 @@ def run_tabu(desc, ctx):
 
     ctx.label("move-kind-%d" % desc["nb"]["move"], desc["nb"]["dead"] and "dead-states")
     group1("tabu_search", ctx, desc, f, call, _valid_state(space), starts=[start])
+
+
+# ============================================================================= tabu on explicit state graphs
+def _graph_label(scheme, l):
+    return l if scheme == 0 else "m%d" % l if scheme == 1 else (l, "x")
+
+
+@st.composite
+def tabu_graph_cases(draw, tier="quick"):
+    """Small explicit state graphs: adj[state] = [[move_label, next_state], ...] with 2-3 move labels shared by all
+    states (the tabu list is on labels, so a label used on the way in is tabu everywhere), distinct objective values
+    and dead-end states (empty neighbour list).
+
+    family 'trap' (60%): a strictly improving path start -> ... -> mid whose last label t is therefore tabu at mid;
+    mid has the tabu move t to `ok` (better than everything on the path: aspiration applies) and a non-tabu move u to
+    `good` (better still); `good` and `ok` are dead ends, so `good` is seen exactly once, in the same neighbourhood
+    scan as the aspirating move.  Worse "noise" states hang off the path.  family 'descent' (~30%): unconstructed,
+    edges mostly lead to better states, the two best states are dead ends (so several improving moves, tabu or
+    not, compete in one scan).  family 'random' (~15%): random edges and values."""
+    nlab = draw(st.sampled_from([2, 3, 3]))
+    scheme = draw(st.integers(0, 2))
+    family = draw(st.sampled_from(["trap", "trap", "trap", "descent", "descent", "random"]))
+    if family == "trap":
+        plen = draw(st.sampled_from([1, 1, 2, 3])) if tier == "quick" else draw(st.integers(1, 5))
+        path_labels = [draw(st.integers(0, nlab - 2)) for _ in range(plen)]  # label nlab-1 stays free for `good`
+        nnoise = draw(st.integers(0, 3))
+        n = plen + 3 + nnoise  # path states 0..plen (mid = plen), ok = plen+1, good = plen+2, then noise
+        mid, ok, good = plen, plen + 1, plen + 2
+        noise = list(range(plen + 3, n))
+        adj = [[] for _ in range(n)]
+        for i in range(plen):
+            adj[i].append([path_labels[i], i + 1])
+        adj[mid].append([path_labels[-1], ok])
+        adj[mid].append([nlab - 1, good])
+        for v in noise:  # reachable from the path, never better than the path's next state, never leading to `good`
+            src = draw(st.integers(0, mid))
+            adj[src].append([draw(st.integers(0, nlab - 1)), v])
+            for _ in range(draw(st.integers(0, 2))):
+                adj[v].append([draw(st.integers(0, nlab - 1)), draw(st.sampled_from(noise + list(range(plen + 1))))])
+        # goodness rank (0 = best): good, ok, mid, ..., start, then the noise states
+        rank = [0] * n
+        rank[good], rank[ok] = 0, 1
+        for i in range(plen + 1):
+            rank[i] = 2 + (plen - i)
+        for j, v in enumerate(noise):
+            rank[v] = plen + 3 + j
+        start = 0
+    elif family == "descent":
+        # state v has rank v; edges lead to better states (80%) or anywhere; the best two states are dead ends
+        n = draw(st.integers(4, 8 if tier == "quick" else 10))
+        adj = [[], []]
+        for v in range(2, n):
+            deg = draw(st.sampled_from([0, 1, 2, 2, 3, 3]))
+            out = []
+            for _ in range(deg):
+                t = draw(st.integers(0, v - 1)) if _chance(draw, 80) else draw(st.integers(0, n - 1))
+                out.append([draw(st.integers(0, nlab - 1)), t])
+            adj.append(out)
+        rank = list(range(n))
+        start = draw(st.integers(n // 2, n - 1))
+    else:
+        n = draw(st.integers(4, 8 if tier == "quick" else 10))
+        adj = []
+        for v in range(n):
+            deg = draw(st.sampled_from([0, 0, 1, 2, 2, 3]))
+            adj.append([[draw(st.integers(0, nlab - 1)), draw(st.integers(0, n - 1))] for _ in range(deg)])
+        rank = list(draw(st.permutations(range(n))))
+        start = draw(st.integers(0, n - 1))
+    # hide the construction order, spread the values (distinct), orient them by minimize/maximize
+    perm = list(draw(st.permutations(range(n))))
+    step = draw(st.sampled_from([1, 1, 2, 3]))
+    off = draw(st.integers(-5, 5))
+    minimize = not _chance(draw, 50)
+    vals = [0] * n
+    adj2 = [[] for _ in range(n)]
+    for v in range(n):
+        vals[perm[v]] = (rank[v] if minimize else -rank[v]) * step + off
+        adj2[perm[v]] = [[l, perm[t]] for l, t in adj[v]]
+    for v in range(n):
+        if len(adj2[v]) > 1:
+            adj2[v] = list(draw(st.permutations(adj2[v])))
+    max_iter = _iters(draw, 12 if tier == "quick" else 30)
+    return {
+        "family": family,
+        "n": n,
+        "obj": {"kind": "graph-table", "vals": vals, "scale": draw(SCALE)},
+        "adj": adj2,
+        "start": perm[start],
+        "scheme": scheme,
+        "minimize": minimize,
+        "cooldown": draw(st.sampled_from([1, 2, 3, 3, 5, 10])),
+        "max_iter": max_iter,
+        "max_no_improve": draw(st.sampled_from([1, 2, 5, 100])),
+        "seed": draw(SEED),
+        "progress": draw(progress_st(max_iter)),
+    }
+
+
+def run_tabu_graph(desc, ctx):
+    from solvor.tabu import tabu_search
+
+    n, vals, sc, adj, scheme = desc["n"], desc["obj"]["vals"], desc["obj"]["scale"], desc["adj"], desc["scheme"]
+    f = _mine((lambda s: vals[s[0]]) if sc == 1 else (lambda s: vals[s[0]] * sc))
+    start = (desc["start"],)
+
+    def neighbors(s):
+        return [(_graph_label(scheme, l), (t,)) for l, t in adj[s[0]]]
+
+    def valid(s):
+        return isinstance(s, tuple) and len(s) == 1 and isinstance(s[0], int) and 0 <= s[0] < n
+
+    def call(objective, minimize):
+        cb, interval, ps = mk_progress(desc["progress"])
+        res = ctx.call(
+            tabu_search,
+            start,
+            objective,
+            _mine(neighbors),
+            minimize=minimize,
+            cooldown=desc["cooldown"],
+            max_iter=desc["max_iter"],
+            max_no_improve=desc["max_no_improve"],
+            seed=desc["seed"],
+            on_progress=cb,
+            progress_interval=interval,
+        )
+        return res, ps
+
+    dead = sum(1 for a in adj if not a)
+    ctx.label("family-" + desc["family"], "labels-scheme-%d" % scheme, dead and "dead-ends", "dead-ends>=n/3" if 3 * dead >= n else None)
+    ctx.size("tabu_graph.states", n)
+    group1("tabu_search", ctx, desc, f, call, valid, starts=[start])
 
 
 # ============================================================================= lns / alns
@@ -1144,20 +1290,27 @@ def run_nm(desc, ctx):
 # ============================================================================= bayesian optimisation (tiny budgets)
 @st.composite
 def bayes_cases(draw, tier="quick"):
-    d = draw(st.integers(1, 2))
+    """Tiny budgets.  Dimension 2-3 in most cases, ei/ucb evenly, acq_restarts mostly 1 (the inner Nelder-Mead runs
+    may then all fail to converge, which is when bayesian_opt falls back to a random point), sometimes 2, 3 or the
+    default; ~45% linear objectives (monotone: the optimum is on the box boundary and the objective keeps improving
+    outside the box, so any evaluated point that escaped the bounds is also the best one and gets returned)."""
+    d = draw(st.sampled_from([1, 2, 2, 3, 3, 3, 3]))
     n_initial = draw(st.integers(1, 4))
+    restarts = draw(st.sampled_from([1, 1, 1, 1, 2, 3, None]))  # None = the default (6)
     # max_iter counts the initial samples too; extra = model-guided evaluations (0 or -1: initial samples only)
-    extra = draw(st.sampled_from([1, 2, 3, 4, 2, 3, 0, -1] + ([5, 6] if tier != "quick" else [])))
+    extras = [1, 2, 3, 4, 5, 3, 4, 5, 0, -1] if restarts is not None else [1, 2, 3]
+    extra = draw(st.sampled_from(extras + ([6, 7] if tier != "quick" and restarts is not None else [])))
     max_iter = max(1, n_initial + extra)
+    kinds = ("linear", "linear", "linear", "linear", "linear", "sphere", "sphere", "abs", "step", "rast", "vtable")
     return {
-        "obj": draw(vec_obj(d)),
+        "obj": draw(vec_obj(d, kinds=kinds)),
         "bounds": draw(bounds_st(d)),
         "minimize": not _chance(draw, 50),
         "max_iter": max_iter,
         "n_initial": n_initial,
         "acquisition": draw(st.sampled_from(["ei", "ucb"])),
         "kappa": draw(st.sampled_from([0.0, 1.0, 2.0, 2.5])),
-        "acq_restarts": draw(st.integers(1, 2)),
+        "acq_restarts": restarts,
         "seed": draw(SEED),
         "progress": draw(progress_st(max_iter, first=n_initial + 1)),
     }
@@ -1180,14 +1333,15 @@ def run_bayes(desc, ctx):
             n_initial=desc["n_initial"],
             acquisition=desc["acquisition"],
             kappa=desc["kappa"],
-            acq_restarts=desc["acq_restarts"],
             seed=desc["seed"],
+            **({"acq_restarts": desc["acq_restarts"]} if desc["acq_restarts"] is not None else {}),
             on_progress=cb,
             progress_interval=interval,
         )
         return res, ps
 
     ctx.label("acq-" + desc["acquisition"], desc["max_iter"] <= desc["n_initial"] and "initial-samples-only")
+    ctx.label("dim-%d" % len(bounds), "restarts-%s" % (desc["acq_restarts"] or "default"))
     group1("bayesian_opt", ctx, desc, f, call, _valid_vec(len(bounds)), bounds=bounds)
 
 
@@ -1283,13 +1437,14 @@ def _sub(name, run, strat, quick, thorough, wq=1, wt=4):
 SUBS = [
     _sub("anneal", run_anneal, lambda tier: anneal_cases(tier), 1500, 4000),
     _sub("tabu_search", run_tabu, lambda tier: tabu_cases(tier), 1000, 3000),
+    _sub("tabu_graph", run_tabu_graph, lambda tier: tabu_graph_cases(tier), 1500, 4000),
     _sub("lns", run_lns, lambda tier: lns_cases(tier), 1500, 4000),
     _sub("alns", run_alns, lambda tier: alns_cases(tier), 1300, 4000),
     _sub("evolve", run_evolve, lambda tier: evolve_cases(tier), 1200, 3500),
     _sub("differential_evolution", run_de, lambda tier: de_cases(tier), 1200, 3000),
     _sub("particle_swarm", run_pso, lambda tier: pso_cases(tier), 1200, 3000),
     _sub("nelder_mead", run_nm, lambda tier: nm_cases(tier), 900, 3500, wq=2),
-    _sub("bayesian_opt", run_bayes, lambda tier: bayes_cases(tier), 220, 600, wq=2, wt=2),
+    _sub("bayesian_opt", run_bayes, lambda tier: bayes_cases(tier), 250, 600, wq=2, wt=2),
     _sub("powell", run_powell, lambda tier: powell_cases(tier), 500, 1200),
     _sub("bfgs_lbfgs", run_bfgs, lambda tier: bfgs_cases(tier), 1000, 3000),
 ]
